@@ -466,6 +466,10 @@ def search(ctx):
                 rest = [x for j, x in enumerate(nodes) if j != victim]
                 fixed.append((vpc, [], [("adv", nodes), ("refuse", nodes[victim]), ("traffic",), ("adv", rest), ("accept", nodes[victim]), ("tick", 61), ("traffic",),
                                         ("tick", 200), ("traffic",), ("adv", rest)]))
+    # entries without an IP address (a cluster outside a VPC, a node still being provisioned): with use_vpc off the nodes go by host
+    # name and the empty field does not matter
+    noip = [(h, "", pt) for h, ip, pt in UNIVERSE[:3]]
+    fixed.append((False, [], [("adv", noip), ("traffic",), ("adv", [noip[0], UNIVERSE[3], noip[2]]), ("traffic",), ("adv", UNIVERSE[:2])]))
     # two nodes at ONE address (same host name and IP), on different ports: both are advertised, both are in the rotation
     twin = (UNIVERSE[0][0], UNIVERSE[0][1], "11299")
     for vpc in (True, False):
